@@ -19,7 +19,7 @@ EXHAUSTIVE = {"quick": True, "thorough": True}
 RULE = ("exhaustive: every GT string over alleles {., 0, 1, 2, 3, 70}, separators {/, |}, ploidy 1-3 (942 strings; the lone '.' is VCF's "
         "missing-VALUE token, not a ploidy-1 genotype, and is excluded from the oracle's domain - 941 classified), each in its own "
         "one-record two-sample input, x role {selected, unselected, one of two selected samples next to a complete/missing/multiallelic one, before and after it, without projection and (every diploid string) under EVERY projection target of one population of two samples (0-4 chromosomes, odd and even shapes, --project-shape and --project-individuals) and of two one-sample populations (0-2 chromosomes each) - whether the site still counts then depends on the classification} x container {vcf, raw bcf, bgzf bcf, bgzf vcf}; quick runs L2 for all and C "
-        "for vcf + raw bcf, thorough all four containers at C. Further: a seventh of the strings as the LAST of 1025 / 2051 / 4097 sample columns; every diploid string with a leading separator (VCF 4.4 `|0|1`, `/1/1`) == its plain spelling; every GT string over {., 0} at records without an ALT allele; a non-diploid genotype in an unselected column that precedes the selected one. A supplementary (not exhaustive) sweep uses allele indices 255..2^63-1 around powers of two in the VCF path. Non-trivial: every string except 0/0; distinct = (string, role, container, level).")
+        "for vcf + raw bcf, thorough all four containers at C. Further: records without a GT key whose first FORMAT field is a String that looks like a genotype (PGT `0|1`), a filter name, an integer pair, or that have no FORMAT field at all; a seventh of the strings as the LAST of 1025 / 2051 / 4097 sample columns; every diploid string with a leading separator (VCF 4.4 `|0|1`, `/1/1`) == its plain spelling; every GT string over {., 0} at records without an ALT allele; a non-diploid genotype in an unselected column that precedes the selected one. A supplementary (not exhaustive) sweep uses allele indices 255..2^63-1 around powers of two in the VCF path. Non-trivial: every string except 0/0; distinct = (string, role, container, level).")
 ASSUMPTIONS = ["'./2' style strings (missing AND multiallelic) may be reported with either reason; only 'skipped' is required",
                "allele 70 forces an int16 GT vector in BCF"]
 FLOORS = {"quick": {"evaluations": 5000, "distinct_nontrivial": 5000, "counts": {"L2_classifications": 3700, "C_runs": 3700, "C_pair_runs": 5000, "C_big_allele_runs": 200}},
@@ -183,6 +183,38 @@ def leading_separator_sweep(S, p):
                 S.case(key="LS|%s|%s|%s" % (lead, s_, container), nontrivial=True)
 
 
+def no_gt_sweep(S, p):
+    """Records whose FORMAT has NO GT key; the first field is String-typed and may LOOK like a genotype (GATK's PGT `0|1`), or is a filter
+    name, an integer pair (AD) - or there is no FORMAT field at all. The sample has no genotype: missing, in every container."""
+    variants = [({"PGT": v_, "PID": "7_A_C"}, "PGT=%s" % v_) for v_ in ("0|1", "1|0", "1|1", "0/1", "1/1", "0|0", "0/0/1", "1", ".")] + \
+               [({"FT": v_, "DP": 12}, "FT=%s" % v_) for v_ in ("PASS", "lowGQ", "0/1", ".")] + [({"AD": [4, 2]}, "AD=4,2"), ({"AD": [2, 4], "DP": 6}, "AD=2,4"), ({}, "no FORMAT")]
+    fmt_defs = {"GT": ("1", "String"), "PGT": ("1", "String"), "PID": ("1", "String"), "FT": ("1", "String"), "DP": ("1", "Integer"), "AD": ("R", "Integer")}
+    for k, (fields, name) in enumerate(variants):
+        if k % 8 != p["i"] % 8:
+            continue
+        for other in ("0/1", "./."):
+            og = parse_gt(other)
+            rec0 = Record("ctg7", 4000, [parse_gt("0/0"), parse_gt("0/1")], ref="A", alts=["C"])
+            rec = Record("ctg7", 4242, [((None, None), (False,)), ((None, None), (False,))], ref="A", alts=["C"], no_gt=True,
+                         extra_fmt={f_: [v_, (v_ if other == "0/1" else ([None, None] if isinstance(v_, list) else None))] for f_, v_ in fields.items()})
+            cs = CallSet(["sel", "oth"], [("ctg1", 5000), ("ctg7", 100000)], [rec0, rec], fmt_defs=fmt_defs)
+            for container in ("vcf", "vcf.gz", "rawbcf", "bcf"):
+                data = E.encode(cs, container, None, layout="single")
+                for sel in ([("sel", None)], [("sel", None), ("oth", None)]):
+                    r = E.cli_create(data, sel, extra=["-v"])
+                    S.count("C_runs")
+                    S.count("C_no_gt_runs")
+                    m = 2 * len(sel)
+                    cells = [0] * (m + 1)
+                    cells[0 if len(sel) == 1 else 1] = 1          # only the first, ordinary record counts
+                    want = ("#SHAPE=<%d>\n%s\n" % (m + 1, " ".join(map(str, cells)))).encode()
+                    if r.rc != 0 or r.out != want or r.panicked:
+                        from .. import replay as R
+                        S.viol("C08:no-gt:%s" % container, "[C %s record with %s and no GT key, %d selected] rc %s stdout %r stderr %r; expected %r" % (
+                            container, name, len(sel), r.rc, r.out[:80], r.err[:200], want), {"level": "C", "argv": r.argv, "input_b64": E.b64(data), "run": r.brief(), "replay": R.exact(r, want)})
+                    S.case(key="NG|%s|%s|%s|%d" % (name, other, container, len(sel)), nontrivial=True)
+
+
 def wide_cohort_sweep(S, p):
     """The genotype under test sits in the LAST column of a cohort of more than a thousand samples (1025, 2051, 4097 columns; every
     other sample 0/0) and is the only selected sample, or selected together with the first: it must be classified like anywhere else."""
@@ -226,6 +258,7 @@ def wide_cohort_sweep(S, p):
 def shard(S, p):
     if "replay" not in p:
         wide_cohort_sweep(S, p)
+        no_gt_sweep(S, p)
         big_allele_sweep(S, p)
         no_alt_and_column_order(S, p)
         leading_separator_sweep(S, p)
